@@ -12,8 +12,18 @@ CLAIMED = {
          "callers establish buffer-length preconditions; NaN payloads unconstrained; JSON flattening, zstd, files, reader column assembly not covered"),
  "C02": ("4 C02", "Numeric and time-range comparison kernels of the search path: time-range membership/overlap equal the mathematical predicate, the record-level numeric comparison equals comparison by value (postconditions taken from the property statement; deviations are listed as known findings), case-insensitive byte equality is ASCII case folding for all lengths (loop invariant). Text/regex matching and the query grammar are not decided.",
          "literal well-formedness (wfLit) is a precondition established by CreateDtypeEnclosure (unverified: string parsing); records are the encodings the writer emits (INT64/FLOAT64/BOOL/STRING/BACKFILL); regex, wildcard and term matching not covered"),
+ "C03": ("4 C03", "Pruning soundness of the pure-arithmetic accelerators: the numeric range filters equal the exact 'some value of [min,max] can satisfy v op q' predicate for all operands, the lemma 'a stored value that matches is never pruned' is proved for int/uint/float against the record-level comparison, every value added to a block's range index stays inside [min,max] across the uint->int->float promotions (map-cell contracts), and time-range overlap equals the interval predicate. Bloom filters, dictionary/raw equivalence, PQS, sort index, agile tree and parallel merge are not decided.",
+         "range-index well-formedness is a precondition (checked as postcondition of the add* functions); uint values above MaxInt64 excluded; int->float promotion obligations only in the thorough tier (slow FP queries); checkRangeIndexHelper's literal parsing not covered"),
  "C04": ("4 C04", "Time-bucket assignment: every timestamp of the range maps to an aligned bucket that contains it (mathematical-integer VCs with explicit uint64 wrap-around, all starts/ends/steps). Group-by, sketches and the stats pipeline are not decided.",
          "step > 0 is a call-site precondition (established by the SPL grammar, unverified); group-by/values/list/HLL/t-digest, .sst fast paths not covered"),
+ "C05": ("4 C05", "Order and pagination kernels: the numeric and string sort comparators equal the order of the values (strict weak order lemmas: antisymmetry, transitivity incl. transitivity of equivalence), scroll skips exactly `from` records and head keeps exactly the first `limit` records of the stream whatever the batching (contracts over the interval view of an IQR). The block scheduler, merge and sort-index paths are not decided.",
+         "IQR operations (NumberOfRecords/Discard/DiscardAfter/Append) are ASSUMED contracts over an abstract interval view; NaN excluded; compareValues' rank/typing logic (strings, interface values) not covered"),
+ "C06": ("4 C06", "Chunk invariance of head, tail and scroll: each processor's cross-batch state is proved to be a function of the number of records seen only (tail: finalIqr is always the last min(seen,TailRows) records; head: union of outputs is the first MaxRows; scroll: skipped prefix), over the interval view of an IQR. The other commands of the property (where/eval/dedup/stats/...) are not decided.",
+         "IQR operations are ASSUMED contracts over an abstract interval view; stream positions below 2^60; batches arrive in stream order (adjacency precondition)"),
+ "C16": ("4 C16", "Event-time normalisation: a numeric timestamp in seconds / milliseconds / nanoseconds is stored as its millisecond (logs) or second (Prometheus remote write) instant for all 2^64 values, and the JSON number path of ExtractTimeStamp agrees with the string path (ghost-linked contracts). Attribute/field preservation through the protocol decoders is not decided.",
+         "the magnitude band [1e14,1e18) is treated as milliseconds by both paths (no microsecond case exists); jsonparser/strconv are external (results arbitrary); RFC3339 parsing not covered"),
+ "C20": ("4 C20", "Alert state machine kernels: threshold conditions equal the configured comparison, Firing requires the current and the N-1 previous evaluations Pending/Firing (loop invariant over the history rows), the new state is Normal iff the condition did not hold and a notification is attempted exactly on Firing/Normal, the notification gate follows its decision table, no division by a zero interval. The keyed-store half of the property is not decided.",
+         "history store (sqlite/gorm) ASSUMED to return non-nil rows; time.Now-based cool-down observers assumed pure; saved objects/dashboards/aliases CRUD not covered"),
 }
 
 NOT_APPLICABLE = {
